@@ -95,6 +95,15 @@ def project(prog, cfg):
                 mark = "@pytest.mark.xfail%s\n" % xf if "class" in how else ""
                 pm = "pytestmark = pytest.mark.xfail%s\n" % xf if "module" in how else ""
                 files[k] = "import pytest\n" + head + "\n" + pm + "\n\n" + mark + "class TestX:\n" + body
+    dyn = cfg.get("xfail_dynamic")
+    if dyn == "hook":
+        # a list of known failures kept in conftest.py: the mark is attached when the test is set up
+        files["conftest.py"] = "import pytest\n\n\ndef pytest_runtest_setup(item):\n    item.add_marker(pytest.mark.xfail(reason='known failure'))\n"
+    elif dyn == "collect":
+        files["conftest.py"] = "import pytest\n\n\ndef pytest_collection_modifyitems(items):\n    for item in items:\n        item.add_marker(pytest.mark.xfail(reason='known failure'))\n"
+    elif dyn == "fixture":
+        files["conftest.py"] = ("import pytest\n\n\n@pytest.fixture(autouse=True, scope='module')\ndef known_failures(request):\n"
+                                "    request.applymarker(pytest.mark.xfail(reason='known failure'))\n")
     pp = []
     tool = []
     if cfg.get("default") is not None:
@@ -141,6 +150,8 @@ def environ(cfg):
 def xfail_live(cfg):
     """pytest xfails a test when any of its xfail marks (own or inherited) has no condition or a true one."""
     marks = []
+    if cfg.get("xfail_dynamic"):
+        return True
     if cfg.get("xfail") is not None:
         marks += cfg["xfail"].split("\n@pytest.mark.xfail")
     if cfg.get("xfail_fn") is not None:
@@ -229,7 +240,7 @@ def judge(prog, cfg, ref_states):
         V("internal-error", "")
         return viol, statekey, m
     A = m["approved"]
-    if cfg.get("xfail") is not None and not pending(prog, cfg) and "trim" in m["flags"]:
+    if (cfg.get("xfail") is not None or cfg.get("xfail_dynamic")) and not pending(prog, cfg) and "trim" in m["flags"]:
         # no file takes part in the session, so an approved trim may remove every stored external
         # (documented hazard of trimming on a partial run); the test files must still be untouched
         ra = {k: v for k, v in ra.items() if k.endswith(".py")}
@@ -260,7 +271,7 @@ def judge(prog, cfg, ref_states):
     elif (unused in ra) != ("trim" not in A):
         V("unused-external-" + ("removed-without-trim" if unused not in ra else "kept-despite-trim"), unused)
     ref = ref_states.get("+".join(sorted(A)))
-    if ref is not None and prog == "canonical" and not cfg.get("xfail") and ref != ra:
+    if ref is not None and prog == "canonical" and not cfg.get("xfail") and not cfg.get("xfail_dynamic") and ref != ra:
         V("differs-from-cli-only-session", _delta(ref, ra))
     if not viol:
         secs = set(plugin.report_sections(r["out"]))
@@ -337,6 +348,9 @@ def configs(tier):
     for xf in stacks:                                         # several xfail marks on one test: any live mark makes it xfail
         for s in (list(CATS), ["create", "fix"], ["review"]):
             cf.append({"xfail": xf, "cli": s, "answers": "yyyy" if s == ["review"] else None})
+    for dyn in ("hook", "collect", "fixture"):                # marks attached at run time
+        for s in (list(CATS), ["create", "fix"], ["report", "fix"], ["review"]):
+            cf.append({"xfail_dynamic": dyn, "cli": s, "answers": "yyyy" if s == ["review"] else None})
     for how in ("class", "module", "classmodule"):            # an inherited mark and an own mark
         for at, fn in ((T_, F_), (F_, T_), (F_, F_), (T_, T_)):
             for s in (list(CATS), ["report", "fix"]):
